@@ -259,6 +259,20 @@ def run_case(case, seed):
                         expect = 10.0 * math.log10(rng_ ** 2 / mse)
                         if abs(p - expect) > 1e-6 * max(1.0, abs(expect)):
                             fails.append(fail("psnr_value", f"{np.dtype(dt).name} {nm}: psnr={p!r}, definition {expect!r}", **tags))
+                    # explicit data_range (positional and keyword, Python and numpy scalars, 1.0 / 255 / a fraction)
+                    for dname, dr in (("1.0", 1.0), ("255", 255), ("0.25", 0.25), ("np.float64(2)", np.float64(2.0)), ("np.int64(255)", np.int64(255))):
+                        for form in ("positional", "keyword"):
+                            okd, pd = call(q.psnr, y, base, dr) if form == "positional" else call(q.psnr, y, base, data_range=dr)
+                            evals += 1
+                            if not okd:
+                                fails.append(fail("metric_raised", f"psnr(data_range={dname}, {form}): {pd}", **tags))
+                            elif (pd == float("inf")) != eq:
+                                fails.append(fail("psnr_inf_iff_equal", f"data_range={dname}: psnr={pd} equal={eq}", **tags))
+                            elif not eq:
+                                mse = float(np.mean((y.astype(np.float64) - base.astype(np.float64)) ** 2))
+                                expect = 10.0 * math.log10(float(dr) ** 2 / mse)
+                                if abs(pd - expect) > 1e-6 * max(1.0, abs(expect)):
+                                    fails.append(fail("psnr_value", f"{np.dtype(dt).name} {nm} data_range={dname} ({form}): psnr={pd!r}, definition {expect!r}", **tags))
     else:
         q = lib.qslst
         H, W, snr = case["H"], case["W"], case["snr"]
